@@ -1,5 +1,6 @@
 import Driver.Common
 import LiskVerif.Model.DiffDB
+import LiskVerif.Model.DiffDBCommit
 
 namespace Driver.DiffDB
 open LiskVerif LiskVerif.DiffDB
@@ -31,6 +32,11 @@ def showDiff (d : Diff) : String :=
   let ks := (d.added.mergeSort (fun a b => ble a b)).map Hex.encode
   "A:" ++ (if ks.isEmpty then "-" else String.intercalate "," ks)
     ++ " U:" ++ showKVs (sortKV d.updated) 0 ++ " D:" ++ showKVs (sortKV d.deleted) 0
+
+/-- the batch a `Commit` handed to its writer: keys set (sorted, with values), keys deleted (sorted) -/
+def showBatch (b : Batch) : String :=
+  let ds := ((batchDels b).mergeSort (fun a b => ble a b)).map Hex.encode
+  "S:" ++ showKVs (sortKV (batchSets b)) 0 ++ " X:" ++ (if ds.isEmpty then "-" else String.intercalate "," ds)
 
 def step (d : DSt) (w : List String) : DSt × String :=
   let bad := (d, "bad-op")
@@ -88,6 +94,10 @@ def step (d : DSt) (w : List String) : DSt × String :=
   | ["commit"] =>
     let (st', df) := commit d.st
     ({ d with st := st', lastDiff := some df }, showDiff df ++ " | " ++ dump st'.store)
+  | ["commitd"] =>
+    -- Commit into a batch that is thrown away (dry run): the staged store stays in use
+    let (st', b, df) := commitKeep d.st
+    ({ d with st := st' }, showDiff df ++ " | " ++ showBatch b)
   | ["revert"] =>
     match d.lastDiff with
     | some df =>
